@@ -140,6 +140,28 @@ ALIASES = {'remove': {'remove', 'shift_remove'}, 'remove_entry': {'remove_entry'
            'with_capacity': {'with_capacity', 'new'}}
 
 
+def map_identity(rep, R, facts):
+    """trait impls that define the observable identity of a toml::Map"""
+    mapty = 'toml::map::Map<alloc::string::String, toml::value::Value>'
+    for trait, meth, inner in (('core::cmp::PartialEq', 'eq', 'eq'), ('core::clone::Clone', 'clone', 'clone')):
+        if not facts.has_method(trait, mapty, meth):
+            continue
+        b = facts.body(facts.method(trait, mapty, meth))
+        calls = []
+        others = []
+        for x in walk(b['body']):
+            if x.get('k') == 'mcall':
+                r = peel(x['recv'])
+                if r.get('k') == 'field' and r.get('name') == 'map':
+                    calls.append(x['name'])
+                else:
+                    others.append(x['name'])
+        rep.check(R, f'Map as {last_seg(trait)}::{meth}', calls == [inner] and not others, f'self.map.{inner}(..)',
+                  f'`{last_seg(trait)} for toml::Map` is {calls + others} instead of the backing map\'s own `{inner}`: ' +
+                  ('equality then depends on iteration order under preserve_order, so a value no longer equals its re-decoded text whose entries the serializer re-ordered'
+                   if meth == 'eq' else 'the copy is built differently from the original'), facts.loc(b))
+
+
 def r5_map_delegate(rep, facts):
     R = rep.rule('C16/R5', 'toml::Map and its entry types are 1:1 delegates of the underlying map (BTreeMap, or IndexMap with shift_remove '
                  'under preserve_order)', floor=24)
@@ -173,6 +195,7 @@ def r5_map_delegate(rep, facts):
         n += 1
         rep.check(R, f'{owner}::{m}', len(calls) == 1 and calls[0] in want, f'-> {calls}', f'`{d}` delegates to {calls}, expected exactly one call of {sorted(want)} on the inner map'
                   + (' (under preserve_order removal must be shift_remove to keep insertion order)' if m == 'remove' and po else ''), facts.loc(b))
+    map_identity(rep, R, facts)
     # the storage type
     adt = facts.adts.get('toml::map::Map')
     ty = [f['ty'] for f in adt['variants'][0]['fields'] if f['name'] == 'map'][0] if adt else ''
